@@ -110,6 +110,7 @@ def c06(run):
 
 def c07(run):
     def gen(g):
+        g.lora_race(q(run, 150, 2000))
         g.lora_rx(q(run, 100, 1500)); g.lora_tx(q(run, 100, 1500)); g.hop(q(run, 60, 600))
         g.fsk_rx(q(run, 100, 1500)); g.fsk_tx(q(run, 100, 1500)); g.hist(q(run, 100, 1500))
     return C.execute(run, gen, monitor=chain(M.mon_ack, M.mon_expect), cone={'irq'})
